@@ -36,6 +36,8 @@ type c14Plan struct {
 	// DeadReads (write failures): the peer has closed its side before the request, and the client only sends
 	// after the reader goroutine has had time to queue more errors than the connection's error queue holds.
 	DeadReads bool `json:"dead_reads,omitempty"`
+	// BrokenPipe (write failures): every write after the failing one fails too.
+	BrokenPipe bool `json:"broken_pipe,omitempty"`
 }
 
 type c14 struct{}
@@ -144,6 +146,7 @@ func (c14) Gen(r *Rand, idx int, tier string) interface{} {
 	p.J = r.Intn(npk)
 	p.Accept = Pick(r, []int{0, 0, 1, 7, 8, 9, 100, 511})
 	p.DeadReads = r.Pct(35)
+	p.BrokenPipe = r.Pct(30)
 	return p
 }
 func (c14) Decode(raw json.RawMessage) (interface{}, error) {
@@ -530,7 +533,9 @@ func c14RunWrite(p *c14Plan, schedSeed uint64, replay []simrt.Choice, lenient, k
 	s := simrt.New(cfg)
 	pr := NewTDSPeer(s)
 	pr.OnMsg = func(m *ClientMsg) { pr.SendResponse(0, peer.Done(0, 0, 0), nil) }
-	s.Net.Setup = func(c *simrt.Conn) { c.WriteFaults = map[int]simrt.WriteFault{p.J: {Accept: p.Accept}} }
+	s.Net.Setup = func(c *simrt.Conn) {
+		c.WriteFaults = map[int]simrt.WriteFault{p.J: {Accept: p.Accept, Persistent: p.BrokenPipe}}
+	}
 	var sendErr error
 	var recs []PkgRec
 	var connErr, second string
